@@ -310,6 +310,12 @@ class Engine:
 
     def s_Assert(self, s, st):
         c = self.truth(self.ev(s.test, st))
+        if any(a in ast.unparse(s.test) for a in (getattr(self.c, "raising_asserts", None) or [])):
+            # a run-time check that the contract declares as a possible exceptional outcome: both outcomes are explored
+            fs = st.clone()
+            fs.assume(z3.Not(c))
+            st.assume(c)
+            return [(RAISE, fs, "AssertionError"), (NEXT, st, None)]
         if self.c.assert_is_assumed(s.lineno, ast.unparse(s.test)):
             st.assume(c)
         else:
